@@ -205,6 +205,23 @@ def run(ck):
     ck.tlc('ArcLattice', d, workers=1, coverage=False, on_case=on_arc, timeout=3000)
     ck.sample('arc', {'arc': {'r': [5, 3], 'phi': 3, 'th': -4, 'dl': 17}, 'crops': 'all lattice step pairs'})
     for name, p, closed in path_families():
+        # reversed(): same points in opposite order, equal length - on a fresh object and on one whose caches are populated
+        for warm in (False, True):
+            q = sp.Path(*list(p))
+            if warm:
+                q.length()
+                q.point(0.3)
+                q.T2t(0.7)
+            rv = q.reversed()
+            ck.case(fp=('path-reversed', name, warm), nontrivial=True)
+            okr = abs(rv.length() - q.length()) <= 1e-9 * q.length() and rv.reversed() == q
+            for T in [0, 0.1, 0.25, 1 / 3.0, 0.5, 0.77, 1]:
+                if abs(rv.point(T) - q.point(1 - T)) > 1e-6 * 12:
+                    okr = False
+            if not okr:
+                ck.disagree(key='Path.reversed/%s' % ('after-queries' if warm else 'fresh'), site='svgpathtools/path.py:Path.reversed',
+                            what='%s: reversed()%s does not traverse the same points in opposite order with equal length' % (name, ' after length()/point()' if warm else ''),
+                            case={'family': name, 'warm': warm}, expected='point(T) = original.point(1-T)', observed=[str(rv.point(0.25)), str(q.point(0.75))], driver='path')
         lens = [s.length() for s in p]
         tot = sum(lens)
         cum = [sum(lens[:i]) / tot for i in range(len(lens) + 1)]
